@@ -1,5 +1,6 @@
 import MdwModel.Driver.Common
 import MdwModel.Pred.C13
+import MdwModel.Model.Modules
 namespace Mdw.Drv.C13
 open Mdw Mdw.Drv
 
@@ -58,6 +59,23 @@ def run (kv : List (String × String)) : Res := Id.run do
     if (effNameOff gate ln).1 == some LINUX_GATE then tags := "gate.renamed" :: tags
     acc := aggStep gate acc ln
   let model := acc.reverse
+  if (get kv "kind") == some "live" then
+    -- the dumper's own list of a live target (entry-point mapping moved to the front), possibly after `init` has run
+    -- again on the same dumper: the property's predicates on the list put back into address order, then the model
+    tags := "live" :: s!"live.reinits.{(get kv "reinits").getD "?"}" :: tags
+    if result != "ok" then return .ok (s!"live.{result}" :: tags)
+    let entry := getNat kv "entry"
+    let sorted := out.mergeSort (fun a b => a.start ≤ b.start)
+    if linesOk lines then
+      if !sortedDisjoint sorted then return .propfail "the dumper's mapping list, put in address order, is not ascending / disjoint / non-empty" tags
+      if !coveredOnce lines sorted then return .propfail "some line of the target's memory map is not inside exactly one of the dumper's mappings" tags
+      if !hullOk gate lines sorted then return .propfail "one of the dumper's mappings is not the hull of a block of consecutive contiguous lines merged for an admissible reason" tags
+      if !gateOk gate lines sorted then return .propfail "the dumper's mapping at the vDSO address is not named linux-gate.so" tags
+    else return .bad "a live target's memory map is ill-formed"
+    if Mod.swapEntry model entry != out then
+      return .mismatch s!"dumper's list model={";".intercalate ((Mod.swapEntry model entry).map showM)} impl={";".intercalate (out.map showM)}" tags
+    if Mod.swapEntry model entry != model then tags := "live.swapped" :: tags
+    return .ok tags none
   if result != "ok" then return .mismatch s!"result model=ok impl={result}" tags
   if model != out then
     return .mismatch s!"aggregate model={";".intercalate (model.map showM)} impl={";".intercalate (out.map showM)}" tags
